@@ -55,6 +55,16 @@ def budget(tier):
 def strategy(tier):
     nb = st.tuples(N.triple(), st.lists(S.strategy_args(), min_size=3, max_size=3)).map(
         lambda t: {"kind": "nb", "base": t[0][0], "x": t[0][1], "r": t[0][2], "combos": t[1]})
+
+    @st.composite
+    def type_only(draw):
+        # X differs from base only in the JSON type of a value (base must carry the number the edit re-types)
+        base = draw(N.notebook())
+        base["metadata"].setdefault("vp_n", draw(st.sampled_from([0, 1, 2])))
+        x = draw(N.type_only_edit(base))
+        r = draw(N.edit_notebook(base, "R", max_steps=2))
+        return {"kind": "nb", "base": base, "x": x, "r": r, "combos": draw(st.lists(S.strategy_args(), min_size=3, max_size=3))}
+    nb = st.one_of(nb, nb, nb, nb, type_only())
     js = G.triple().map(lambda t: {"kind": "json", "base": t[0], "x": t[1], "r": t[2]})
     return st.one_of(nb, nb, nb, js)
 
